@@ -187,6 +187,42 @@ class ObjLit:
         return 'ObjLit%r' % (self.segs,)
 
 
+class StrCat:
+    """string concatenation in normal form: list of parts (python str | string-typed terms); association does not matter"""
+
+    def __init__(self, parts):
+        out = []
+        for p in parts:
+            if isinstance(p, StrCat):
+                ps = p.parts
+            else:
+                ps = [p]
+            for q in ps:
+                if isinstance(q, str) and out and isinstance(out[-1], str):
+                    out[-1] = out[-1] + q
+                elif isinstance(q, str) and q == '':
+                    continue
+                else:
+                    out.append(q)
+        self.parts = out
+
+    def __repr__(self):
+        return 'StrCat%r' % (self.parts,)
+
+
+def stringy(v):
+    if isinstance(v, (str, StrCat)):
+        return True
+    if is_v(v):
+        if z3.is_app(v) and v.decl().name() == 'String':
+            return True
+        if z3.is_app(v) and v.decl().kind() == z3.Z3_OP_ITE:
+            return stringy(v.arg(1)) and stringy(v.arg(2))
+        if z3.is_app(v) and v.decl().name() == 'Str':
+            return True
+    return False
+
+
 class Interp:
     def __init__(self):
         self.pc = []                 # stack of z3 Bools (symbolic branch conditions)
@@ -220,6 +256,13 @@ class Interp:
             return V.Num(z3.RealVal(fr.numerator) / z3.RealVal(fr.denominator) if fr.denominator != 1 else z3.RealVal(fr.numerator))
         if isinstance(v, str):
             return V.Str(z3.StringVal(v))
+        if isinstance(v, StrCat):
+            if not v.parts:
+                return V.Str(z3.StringVal(''))
+            acc = self.term(v.parts[0])
+            for p in v.parts[1:]:
+                acc = binf('+')(acc, self.term(p))
+            return acc
         if isinstance(v, ArrLit):
             acc = ARR_EMPTY
             for kind, x in v.segs:
@@ -282,6 +325,8 @@ class Interp:
             return v == v and v != 0
         if isinstance(v, str):
             return v != ''
+        if isinstance(v, StrCat):
+            return z3.Or([self.truthy(p) if not isinstance(self.truthy(p), bool) else z3.BoolVal(self.truthy(p)) for p in v.parts])
         return True
 
     def typeof_term(self, t):
@@ -663,7 +708,7 @@ class Interp:
                     return 'undefined'
                 if isinstance(v, (JObj, JArr, ArrLit, ObjLit)) or v is NULL:
                     return 'object'
-                if isinstance(v, str):
+                if isinstance(v, (str, StrCat)):
                     return 'string'
                 if isinstance(v, bool):
                     return 'boolean'
@@ -751,12 +796,17 @@ class Interp:
             if conc(x):
                 r = x is NULL or x is UNDEFINED
                 return r if op == '==' else not r
-            if isinstance(x, (Closure, Native, JObj, JArr, ArrLit, ObjLit)):
+            if isinstance(x, (Closure, Native, JObj, JArr, ArrLit, ObjLit, StrCat)):
                 return op != '=='
             t = nullish_t(self.term(x))
             return V.Bool(t if op == '==' else z3.Not(t))
-        if op == '+' and isinstance(a, str) and isinstance(b, str):
-            return a + b            # concatenation of two string constants
+        if op == '+' and stringy(a) and stringy(b):
+            r = StrCat([a, b])      # concatenation of two strings: kept in a normal form that ignores association
+            if len(r.parts) == 1 and isinstance(r.parts[0], str):
+                return r.parts[0]
+            if not r.parts:
+                return ''
+            return r
         if isinstance(a, (int, float)) and isinstance(b, (int, float)) and not isinstance(a, bool) and not isinstance(b, bool):
             if op == '+':
                 return a + b
